@@ -361,3 +361,17 @@ func VerifSelftestRepo() {
 	vObserve("config-empty-rejected", err != nil)
 	vObserve("mgr-size", mgr.Size())
 }
+
+// VerifSelftestPool is run in the engine only (the reuse of pooled objects is not deterministic
+// natively): the model yields, for a Get after a Put, both the reused and a fresh object.
+func VerifSelftestPool() {
+	type box struct{ v int }
+	pool := sync.Pool{New: func() interface{} { return &box{v: -1} }}
+	a := pool.Get().(*box)
+	a.v = 5
+	pool.Put(a)
+	b := pool.Get().(*box)
+	vObserve("pool-get-after-put", b.v)
+	var empty sync.Pool
+	vObserve("pool-no-new", empty.Get() == nil)
+}
